@@ -76,13 +76,18 @@ def pairsOf (rows : List (List Int)) : Option (List (Int × Int)) :=
   rows.mapM (fun r => match r with | [a, b] => some (a, b) | _ => none)
 
 /-- `index_xxx`: the width check of `_call_non_index_function` comes first. -/
-def indexOp (sh : Arr → String) (a : Arr) (rows : List (List Int)) (periodic : Bool) (box : BoxArg) : String :=
+def indexOp (sh : Arr → String) (a : Arr) (rows : List (List Int)) (periodic : Bool) (box : BoxArg)
+    (own : Option BoxArg := none) : String :=
   match rows with
   | r :: _ => if r.length ≠ 2 then "ERR:ValueError" else
     match pairsOf rows with
-    | some ps => showRes sh (indexDisplacement K a ps periodic box)
+    | some ps => showRes sh (indexDisplacement K a ps periodic box own)
     | none => "bad-op"
-  | [] => showRes sh (indexDisplacement K a [] periodic box)
+  | [] => showRes sh (indexDisplacement K a [] periodic box own)
+
+/-- `nd`: the atoms are a plain ndarray; otherwise the `box` attribute of the AtomArray / AtomArrayStack (`-` = None) -/
+def parseOwn (s : String) : Option (Option BoxArg) :=
+  if s == "nd" then some none else (parseBox s).map some
 
 def boolStr (b : Bool) : String := if b then "T" else "F"
 
@@ -112,6 +117,14 @@ def step (_ : Unit) (line : String) : Unit × String :=
       match parseArr a, parseIdx idx, parseBox b with
       | some a, some rows, some b => indexOp showArr a rows (p == "T") b
       | _, _, _ => "bad-op"
+    | ["idisp", _, a, idx, p, b, own] =>
+      match parseArr a, parseIdx idx, parseBox b, parseOwn own with
+      | some a, some rows, some b, some own => indexOp showArr a rows (p == "T") b own
+      | _, _, _, _ => "bad-op"
+    | ["idist2", _, a, idx, p, b, own] =>
+      match parseArr a, parseIdx idx, parseBox b, parseOwn own with
+      | some a, some rows, some b, some own => indexOp (showScal V3.normSq) a rows (p == "T") b own
+      | _, _, _, _ => "bad-op"
     | ["idist2", _, a, idx, p, b] =>
       match parseArr a, parseIdx idx, parseBox b with
       | some a, some rows, some b => indexOp (showScal V3.normSq) a rows (p == "T") b
@@ -143,6 +156,12 @@ def step (_ : Unit) (line : String) : Unit × String :=
       | some (.l xs), some (.one b), some am =>
         let am := repeatBoxAmount am
         s!"ok {showArr (.l (repeatBoxCoord K xs b am))} {showNatsU (repeatIndices K xs.length am)}"
+      | some (.s ms), some (.many bs), some am =>
+        -- AtomArrayStack: every model is repeated with its own box
+        let am := repeatBoxAmount am
+        if ms.length ≠ bs.length then "unmodelled" else
+        let n := match ms with | m :: _ => m.length | [] => 0
+        s!"ok {showArr (.s ((List.zip ms bs).map (fun (p : List Vec × Box) => repeatBoxCoord K p.1 p.2 am)))} {showNatsU (repeatIndices K n am)}"
       | _, _, _ => "bad-op"
     | ["rpbcmol", _, a, b, mols] =>
       match parseArr a, parseBox b, parseMols mols with
